@@ -274,14 +274,83 @@ def r5_4(repo: Repo) -> RuleResult:
     return rr
 
 
-RULES = [r5_1, r5_2, r5_3, r5_4]
+def _array_precision(repo: Repo, f: Func, ret_pos: int) -> str:
+    """'float32' if the array returned at position ret_pos went through .astype(np.float32) (and only weak Python
+    scalars after that), else 'float64'."""
+    rets = [n for n in walk_no_nested(f.node) if isinstance(n, ast.Return) and n.value is not None]
+    e = rets[0].value
+    if isinstance(e, ast.Tuple):
+        e = e.elts[ret_pos]
+    seen = set()
+    todo = [e]
+    f32 = False
+    while todo:
+        x = todo.pop()
+        for n in ast.walk(x):
+            if isinstance(n, ast.Call) and isinstance(n.func, ast.Attribute) and n.func.attr == "astype" and n.args \
+                    and repo.canonical(f.module, n.args[0]) in ("numpy.float32", "numpy.single"):
+                f32 = True
+            if isinstance(n, ast.Name) and n.id not in seen:
+                seen.add(n.id)
+                for m in walk_no_nested(f.node):
+                    if isinstance(m, ast.Assign) and any(isinstance(t, ast.Name) and t.id == n.id for t in m.targets):
+                        todo.append(m.value)
+    return "float32" if f32 else "float64"
+
+
+def _scalar_kind(repo: Repo, f: Func, e: ast.AST) -> str:
+    """'weak' (a Python scalar: takes the array's precision under NumPy's promotion rules), 'strong64' (a NumPy float64
+    scalar / 0-d result: forces the comparison into double precision) or 'f32'."""
+    for n in ast.walk(e):
+        if isinstance(n, ast.Call):
+            canon = repo.canonical(f.module, n.func) or ""
+            if canon in ("numpy.float32", "numpy.single"):
+                return "f32"
+            if canon.startswith("numpy"):
+                # float(np.clip(...)) brings the value back to a Python float
+                return "strong64"
+    return "weak"
+
+
+def r5_5(repo: Repo) -> RuleResult:
+    rr = RuleResult("R5.5", "a bound compared with float32 frequencies stays a Python scalar (so the comparison is made in the frequencies' own precision)", floor=2)
+    f = repo.func(PP, "prune_token_dictionary")
+    cons = repo.func(PP, "construct_token_dictionary_and_frequency")
+    tok_prec = _array_precision(repo, cons, 1)
+    doc_prec = _array_precision(repo, repo.func(PP, "construct_document_frequency"), 0)
+    rr.facts["token_frequency_precision"] = tok_prec
+    rr.facts["document_frequency_precision"] = doc_prec
+    arrays = {"min_frequency": tok_prec, "max_frequency": tok_prec, "min_document_frequency": doc_prec, "max_document_frequency": doc_prec}
+    for b, prec in arrays.items():
+        assigns = [n for n in walk_no_nested(f.node) if isinstance(n, ast.Assign) and any(isinstance(t, ast.Name) and t.id == b for t in n.targets)]
+        for a in assigns:
+            kind = "weak"
+            v = a.value
+            # float(...) around anything gives a Python float again
+            if isinstance(v, ast.Call) and isinstance(v.func, ast.Name) and v.func.id == "float":
+                kind = "weak"
+            else:
+                kind = _scalar_kind(repo, f, v)
+            construct = "%s = %s" % (b, short(v, 50))
+            if prec == "float32" and kind == "strong64":
+                rr.bad(f, construct,
+                       "the frequencies compared with `%s` are float32, and this assignment makes the bound a NumPy float64 scalar: the "
+                       "comparison is then made in double precision, where the float32-rounded frequency of a token occurring exactly the "
+                       "bound differs from the bound - such a token is pruned (a Python float would be compared in float32 and tie exactly)" % b,
+                       a.lineno)
+            else:
+                rr.ok(f, construct, "%s bound against %s frequencies" % (kind, prec), a.lineno, nontrivial=prec == "float32")
+    return rr
+
+
+RULES = [r5_1, r5_2, r5_3, r5_4, r5_5]
 CLAIM = (
     "R5.1 every index assignment on the fit path of the vocabulary code iterates a source whose order derives from sorted(...) "
     "(order-kind propagation through comprehensions, dict order and call sites); R5.2 completeness of the constraint plumbing: "
     "constructor parameter -> preprocessing call -> prune call -> returned dictionary, for every estimator and every parameter; "
-    "R5.3 the five bound comparisons are strict with the right polarity; R5.4 the pruning call is dominated by `token_dictionary is None`."
+    "R5.3 the five bound comparisons are strict with the right polarity; R5.4 the pruning call is dominated by `token_dictionary is None`; R5.5 precision kinds at the bound comparisons: token frequencies are float32 (traced to their .astype), so the bounds they are compared with must stay Python scalars (NumPy promotion then compares in float32 and a count equal to the bound ties exactly) - a NumPy float64 scalar bound is a violation."
 )
 NOT_DECIDED = (
-    "the float32-vs-float64 rounding of count/total at the bound (measured at design time: no (count,total) pair up to 3000 is "
-    "mis-pruned with the installed numpy; a static same-precision rule would alarm on correct code, so it is deliberately not armed)."
+    "the residual double-rounding question (bound computed in double then rounded to float32 vs the float32 division): measured - no "
+    "(count, total) pair up to 3000 is mis-pruned with the installed numpy; only the promotion-kind clause R5.5 is armed."
 )
